@@ -783,6 +783,11 @@ def load(f, **options):  # type: (typing.IO, **typing.Any) -> canmatrix.CanMatri
                         try:
                             frame = get_frame_by_id(canmatrix.ArbitrationId.from_compound_integer(int(frame_id)))
                             sg = frame.signal_by_name(signal_name)
+                            # an unterminated description or a malformed number rejects the whole line, not its tail only
+                            if len(temp_list) % 2 == 0:
+                                raise ValueError("unterminated value description")
+                            for value_key in temp_list[0:2 * (len(temp_list) // 2):2]:
+                                int(str(value_key), 0)
                             for i in range(math.floor(len(temp_list) / 2)):
                                 val = temp_list[i * 2 + 1]
                                 val = val.replace('\\"', '"')
